@@ -24,6 +24,7 @@ def run(chk):
     if got is None:
         return
     recs, model = got
+    release_parity(chk, 'withfaces', recs)
     npanic = 0
     for r in recs:
         chk.count()
